@@ -77,6 +77,12 @@ mod sender;
 mod uri_params;
 mod write_fut;
 
+/// Re-exports for the external verification harness (feature `verif`).
+#[cfg(feature = "verif")]
+pub mod verif_hooks {
+    pub use super::links::{Links, TriggerUnlink};
+}
+
 pub use external_links::LinksTaskConfig;
 pub use init::{AgentInitTask, InitTaskConfig};
 use tokio::sync::{mpsc, oneshot};
